@@ -686,3 +686,4 @@ M('C20', 'interior-barycentric-abs-det', 'src/geom3/mesh/uv_mapping.rs', "    if
 M('C09', 'fit-circle-loose-ftol', 'src/geom2/circle2.rs', "    let (result, report) = LevenbergMarquardt::new().minimize(problem);", "    let (result, report) = LevenbergMarquardt::new().with_ftol(1.0e-4).minimize(problem);", 'default-tolerances')
 M('C11', 'arc-set-angle-in-place', 'src/geom2/circle2.rs', "    pub fn length(&self) -> f64 {\n        self.circle.ball.radius * self.angle.abs()\n    }", "    pub fn length(&self) -> f64 {\n        self.circle.ball.radius * self.angle.abs()\n    }\n\n    pub fn set_sweep(&mut self, angle: f64) {\n        self.angle = angle;\n    }", 'immutable')
 M('C10', 'open-gap-max-instead-of-min', 'src/airfoil/edges.rs', "                .min(end_sp.scalar_projection(&end_cap.b));", "                .max(end_sp.scalar_projection(&end_cap.b));", 'find_edge:step')
+M('C18', 'angle-interval-contains-no-wrap-branch', 'src/common/angles.rs', "            angle + 2.0 * PI <= self.start + self.angle + ANGLE_TOL", "            angle <= self.start + self.angle - 2.0 * PI", 'AngleInterval::contains')
